@@ -16,8 +16,22 @@ needed: `H` returns 20 bytes). Property theorems are in `namespace Gms.C40`.
                    (false in general: `finding_match_order_by_insertion`), order-independence for
                    unambiguous logins is `Gms.C41.account_lookup_order_independent`
   negotiation      `handleUser_iff`, `sha2Fast_accept_iff`
+  host patterns    `facts_host_pattern_table` (the compiled matcher on a complete small domain),
+                   `glob_iff_matches` (the matcher decides the language of the code's regular expression),
+                   `matchesHostPattern_eq` (C39's model is that matcher), `match_is_interleave` (a match is the
+                   pattern's segments, in order and DISJOINT, interleaved with gaps), `single_wildcard_iff`,
+                   `match_needs_room` / `short_host_rejected` (a host shorter than the pattern's literals never
+                   matches), `overlap_matcher_unsound` (the defect class: pieces looked up independently),
+                   `glob_eq_like_of_no_underscore` / `underscore_is_literal` (MySQL's LIKE rule, `_`)
+  histories        `login_reads_current_table`, `stepI_eq_stepS_of_ok`, `stateI_eq_stateS_of_ok`,
+                   `loginI_eq_loginS_of_same_account`,
+                   `finding_create_user_account_lock_ignored`,
+                   `finding_dml_update_keeps_old_row_of_scoped_account`, `cache_coherent`,
+                   `stale_cache_diverges`
 -/
 import Gms.Model.Auth
+import Gms.Model.AuthHist
+import Gms.Lemmas.HostPattern
 import Gms.Lemmas.PrivSerial
 import Gms.Generated.C40
 
@@ -149,6 +163,51 @@ theorem facts_match :
     Generated.C40.getUserConds = ["\"127.0.0.1\" == host || \"::1\" == host", "ok",
       "host == user.Host || (host == \"localhost\" && user.Host == \"::1\") || (host == \"localhost\" && user.Host == \"127.0.0.1\") || (user.Host == \"%\" && (!roleSearch || host == \"\")) || matchesHostPattern(host, user.Host) || (originalHost != host && matchesHostPattern(originalHost, user.Host))"] := by
   refine ⟨by decide, by decide, by decide, by decide, by decide, by decide, by decide, by decide, by decide, by decide, by decide⟩
+
+set_option maxRecDepth 20000 in
+/-- The host-pattern matcher is the anchored regular expression `Gms.HostPattern.Matches` is the language of
+(`%` ↦ `.*`, everything else quoted); every place of `auth.go` that resolves the connecting (user, host) to an
+account is a direct `GetUser` on the reader opened for that attempt, and neither the auth server nor its
+storage / validator objects nor a package variable can remember anything between attempts (a login reads the
+current table: `login_reads_current_table`); `Reader.GetUser` panics on two entries under one key
+(`AuthHist.dupKey`); the two listed defects of the statement paths: `buildCreateUser` stores `Locked: false`,
+`in_mem_table.Update` removes the old entry by equality with the entry rebuilt from the old row, whose
+privilege set `UserFromRow` derives from the row alone. -/
+theorem facts_match_lookup :
+    Generated.C40.hostPatternSkeleton = ["if !strings.Contains(pattern, \"%\") { return false }",
+      "regexPattern := regexp.QuoteMeta(pattern)", "regexPattern = strings.ReplaceAll(regexPattern, \"%\", \".*\")",
+      "regexPattern = \"^\" + regexPattern + \"$\"", "matched, err := regexp.MatchString(regexPattern, host)",
+      "return err == nil && matched"] ∧
+    Generated.C40.readerGetUserConds = ["len(users) > 1 { panic(\"too many matching users\") }",
+      "len(users) > 0 { res = users[0] ok = true }"] ∧
+    Generated.C40.authAccountLookups = [
+      "noopCachingStorage.UserEntryWithCacheHash: userEntry := db.GetUser(rd, user, host, false)",
+      "sha2PlainTextStorage.UserEntryWithPassword: userEntry := db.GetUser(rd, user, host, false)",
+      "extendedAuthPlainTextStorage.UserEntryWithPassword: userEntry := db.GetUser(rd, user, host, false)",
+      "extendedAuthUserValidator.HandleUser: userEntry := db.GetUser(rd, user, host, false)",
+      "nativePasswordHashStorage.UserEntryWithHash: userEntry := db.GetUser(rd, user, host, false)",
+      "userValidator.HandleUser: userEntry := uv.db.GetUser(rd, user, host, false)"] ∧
+    Generated.C40.authStructFields = ["authServer{authMethods []mysql.AuthMethod}", "decoyAuthSubject{}",
+      "extendedAuthPlainTextStorage{db *MySQLDb}", "extendedAuthUserValidator{db *MySQLDb}",
+      "nativePasswordHashStorage{db *MySQLDb}", "noopCachingStorage{db *MySQLDb}", "sha2PlainTextStorage{db *MySQLDb}",
+      "userValidator{db *MySQLDb; authMethod mysql.AuthMethodDescription}"] ∧
+    Generated.C40.authPackageVars = [] ∧
+    Generated.C40.createUserLocked = ["false"] ∧
+    Generated.C40.imtUpdateSkeleton = ["e, err := ops.FromRow(ctx, old)", "if err != nil", "ek := is.Keyers[0].GetKey(e)",
+      "es := is.GetMany(is.Keyers[0], ek)", "if len(es) == 1", "old := e", "e := es[0]",
+      "e, err = ops.UpdateWithRow(ctx, new, e)", "if err != nil", "is.Remove(old)", "is.Put(e)",
+      "e, err = ops.FromRow(ctx, new)", "if err != nil", "for range es", "is.Remove(old)", "is.Put(e)"] ∧
+    Generated.C40.userFromRowPrivs = ["UserRowToPrivSet(ctx, row)"] := by
+  refine ⟨by decide, by decide, by decide, by decide, by decide, by decide, by decide, by decide⟩
+
+set_option maxRecDepth 100000 in
+/-- The compiled matcher, run by the extractor on every pattern of length ≤ 3 over {a,b,%} against every host
+of length ≤ 3 over {a,b}, agrees with the model on all 600 entries (literals on both sides of a wildcard with
+hosts too short for them — `a%a` against `a` — included). -/
+theorem facts_host_pattern_table :
+    Generated.C40.hostPatternTable.all
+      (fun e => (e.1.contains '%' && Gms.HostPattern.glob e.1 e.2.1) == e.2.2) = true ∧
+    Generated.C40.hostPatternTable.length = 600 := by decide
 
 /-! ## The scramble check -/
 
@@ -551,5 +610,337 @@ theorem sha2Fast_accept_iff (accts : List Acct) (user host u h : String) (resp :
       apply hr
       rcases h with rfl | rfl <;> simp
     simp [hr, hr']
+
+/-! ## The host-pattern matcher -/
+section HostPatterns
+open Gms.HostPattern
+
+/-- **The matcher decides the language of the code's regular expression**: `matchesHostPattern`'s anchored
+expression (`%` ↦ `.*`, every other character quoted) accepts a host exactly when the host is the pattern's
+literal characters, in order, with one newline-free gap per `%`. -/
+theorem glob_iff_matches (p h : List Char) : glob p h = true ↔ Matches p h :=
+  ⟨glob_sound p h, glob_complete⟩
+
+/-- The model of `matchesHostPattern` inside `getUserIdx` (C39's `Gms.Priv`, well-founded recursion) is the
+structural matcher of `Gms.HostPattern`, hence everything below is about the function the login model uses. -/
+theorem matchesHostPattern_eq (host pattern : String) :
+    Gms.Priv.matchesHostPattern host pattern = Gms.HostPattern.matchesHostPattern host pattern := by
+  simp only [Gms.Priv.matchesHostPattern, Gms.HostPattern.matchesHostPattern, globMatch_eq_glob]
+
+/-- **A match is the pattern's segments interleaved with gaps**: `host = s₀ ++ g₁ ++ s₁ ++ … ++ gₙ ++ sₙ` where
+`s₀ … sₙ = strings.Split(pattern, "%")`. The segments occupy *disjoint* stretches of the host, in order — the
+text before the first `%` is a prefix, the text after the last `%` a suffix, and they do not share characters. -/
+theorem match_is_interleave (p h : List Char) :
+    glob p h = true ↔
+      ∃ gs : List (List Char), gs.length + 1 = (segs p).length ∧ (∀ g ∈ gs, gapOk g) ∧ h = interleave (segs p) gs := by
+  rw [glob_iff_matches]
+  exact ⟨matches_interleave, fun ⟨gs, hl, hg, hh⟩ => interleave_matches p h gs hl hg hh⟩
+
+theorem segs_nowild (a : List Char) (ha : '%' ∉ a) : segs a = [a] := by
+  induction a with
+  | nil => rfl
+  | cons c a ih =>
+    have hc : c ≠ '%' := fun e => ha (by rw [e]; exact List.mem_cons_self ..)
+    have ih' := ih (fun hm => ha (List.mem_cons_of_mem _ hm))
+    simp [segs, hc, ih']
+
+theorem segs_append_wild (a p : List Char) (ha : '%' ∉ a) : segs (a ++ '%' :: p) = a :: segs p := by
+  induction a with
+  | nil => simp [segs]
+  | cons c a ih =>
+    have hc : c ≠ '%' := fun e => ha (by rw [e]; exact List.mem_cons_self ..)
+    have ih' := ih (fun hm => ha (List.mem_cons_of_mem _ hm))
+    simp [segs, hc, ih']
+
+/-- One wildcard between two literal pieces: `a%b` accepts exactly `a ++ gap ++ b` — in particular the host
+has at least `|a| + |b|` characters: prefix and suffix never overlap. -/
+theorem single_wildcard_iff (a b h : List Char) (ha : '%' ∉ a) (hb : '%' ∉ b) :
+    glob (a ++ '%' :: b) h = true ↔ ∃ g, gapOk g ∧ h = a ++ g ++ b := by
+  rw [match_is_interleave, segs_append_wild a b ha, segs_nowild b hb]
+  constructor
+  · rintro ⟨gs, hl, hg, hh⟩
+    match gs, hl with
+    | [g], _ => exact ⟨g, hg g (List.mem_cons_self ..), by simpa [interleave] using hh⟩
+  · rintro ⟨g, hg, hh⟩
+    refine ⟨[g], rfl, ?_, by simpa [interleave] using hh⟩
+    intro x hx
+    have : x = g := by simpa using hx
+    rw [this]; exact hg
+
+/-- **A host shorter than the pattern's literal text never matches.** -/
+theorem match_needs_room (p h : List Char) (hm : glob p h = true) : litLen p ≤ h.length :=
+  matches_litLen ((glob_iff_matches p h).1 hm)
+
+theorem short_host_rejected (host pattern : String) (hs : host.toList.length < litLen pattern.toList) :
+    Gms.Priv.matchesHostPattern host pattern = false := by
+  rw [matchesHostPattern_eq]
+  simp only [Gms.HostPattern.matchesHostPattern]
+  cases hg : glob pattern.toList host.toList with
+  | false => simp
+  | true => exact absurd (match_needs_room _ _ hg) (by omega)
+
+/-- Non-vacuity: the README's shapes. Each host contains every literal piece of the pattern, in order, but
+not disjointly; the matcher rejects them (they are shorter than the literal text, `short_host_rejected`). -/
+example : glob "%.10.%.10".toList "1.2.10.10".toList = false ∧ glob "%.10.%.10".toList "1.2.10.9.10".toList = true
+    ∧ glob "10.1%1.0.5".toList "10.1.0.5".toList = false ∧ glob "10.1%1.0.5".toList "10.11.0.5".toList = true
+    ∧ glob "10.0.%.0.1".toList "10.0.0.1".toList = false ∧ litLen "10.0.%.0.1".toList = 9 := by decide
+
+/-- **The defect class.** A matcher that anchors the first segment as a prefix and the last as a suffix of
+the whole host and searches the middle segments behind the prefix — without keeping the pieces disjoint —
+accepts hosts outside the pattern's language: it is not the code's matcher. -/
+theorem overlap_matcher_unsound :
+    ∃ p h : List Char, overlapMatch p h = true ∧ glob p h = false ∧ h.length < litLen p :=
+  ⟨"a%ab".toList, "ab".toList, by decide⟩
+
+example : overlapMatch "%.10.%.10".toList "1.2.10.10".toList = true
+    ∧ overlapMatch "10.1%1.0.5".toList "10.1.0.5".toList = true
+    ∧ overlapMatch "10.0.%.0.1".toList "10.0.0.1".toList = true
+    ∧ overlapMatch "10.0.%".toList "10.0.0.5".toList = true ∧ overlapMatch "10.0.%".toList "10.1.0.5".toList = false := by decide
+
+/-- Without `_` in the pattern (and no newline in the host) the code's rule is MySQL's rule for account hosts
+(LIKE: `%` any run of characters, `_` any single character). -/
+theorem glob_eq_like_of_no_underscore (p h : List Char) (hp : '_' ∉ p) (hh : ∀ x ∈ h, x ≠ '\n') :
+    glob p h = likeMatch p h := glob_eq_like p h hp hh
+
+/-- …and with `_` it is not: the code takes `_` literally where MySQL accepts any one character (a deviation
+from MySQL in the direction of rejecting; the Spec of this property is the code's documented `%`-only rule). -/
+theorem underscore_is_literal :
+    glob "10.0.0._%".toList "10.0.0.5".toList = false ∧ likeMatch "10.0.0._%".toList "10.0.0.5".toList = true
+    ∧ glob "10.0.0._%".toList "10.0.0._".toList = true := by decide
+
+end HostPatterns
+
+/-! ## Histories: a login is decided against the current account table -/
+section Histories
+open Gms.AuthHist
+
+/-- **A login reads the current table.** The observation of a login at the end of a history is `loginI` on
+the state produced by the statements before it — no other state exists in the model, and `facts_match_lookup`
+pins that none exists in the code path (every lookup is a `GetUser` on a fresh reader). -/
+theorem login_reads_current_table (H : Bytes → Bytes) (es : List Entry) (evs : List Ev) (u h : String) (s p : Bytes) :
+    runI H es (evs ++ [.login u h s p]) = runI H es evs ++ [loginI H (stateI es evs) u h s p] := by
+  induction evs generalizing es with
+  | nil => simp [runI, stateI]
+  | cons e r ih =>
+    cases e with
+    | op o => simp [runI, stateI, ih]
+    | login u' h' s' p' => simp [runI, stateI, ih]
+
+theorem findIdx_key_some (P : String × String → Bool) (l : List Entry) (i : Nat)
+    (h : findIdx P (l.map (·.key)) = some i) : ∃ e, l[i]? = some e ∧ P e.key = true := by
+  induction l generalizing i with
+  | nil => simp [findIdx] at h
+  | cons a l ih =>
+    simp only [List.map_cons, findIdx] at h
+    by_cases hp : P a.key = true
+    · simp only [hp, if_true, Option.some.injEq] at h
+      subst h
+      exact ⟨a, by simp, hp⟩
+    · simp only [hp, Bool.false_eq_true, if_false, Option.map_eq_some_iff] at h
+      obtain ⟨j, hj, rfl⟩ := h
+      obtain ⟨e, he1, he2⟩ := ih j hj
+      exact ⟨e, by simpa using he1, he2⟩
+
+theorem findIdx_key_isSome (P : String × String → Bool) (l : List Entry) (e : Entry) (he : e ∈ l) (hp : P e.key = true) :
+    ∃ i, findIdx P (l.map (·.key)) = some i := by
+  induction l with
+  | nil => cases he
+  | cons a l ih =>
+    simp only [List.map_cons, findIdx]
+    by_cases hpa : P a.key = true
+    · exact ⟨0, by simp [hpa]⟩
+    · rcases List.mem_cons.1 he with rfl | hm
+      · exact absurd hp hpa
+      · obtain ⟨i, hi⟩ := ih hm
+        exact ⟨i + 1, by simp [hpa, hi]⟩
+
+/-- `DROP USER` of an account that exists (and is not spelled with a loopback address) drops exactly it. -/
+theorem chooseEntry_of_hasKey (es : List Entry) (k : Key) (hk : hasKey es k = true)
+    (h1 : k.2 ≠ "127.0.0.1") (h2 : k.2 ≠ "::1") : ∃ e, chooseEntry es k.1 k.2 = some e ∧ e.key = k := by
+  have hn : normHost k.2 = k.2 := by simp [normHost, h1, h2]
+  simp only [hasKey, List.any_eq_true, beq_iff_eq] at hk
+  obtain ⟨e0, he0, hke0⟩ := hk
+  obtain ⟨i, hi⟩ := findIdx_key_isSome (fun key => decide (key.2 = k.2 ∧ key.1 = k.1)) es e0 he0 (by simp [hke0])
+  obtain ⟨e, he1, he2⟩ := findIdx_key_some _ es i hi
+  refine ⟨e, ?_, ?_⟩
+  · simp only [chooseEntry, getUserIdx, hn, hi]
+    simpa using he1
+  · simp only [decide_eq_true_eq] at he2
+    exact Prod.ext he2.2 he2.1
+
+/-- **Inside the envelope the code's statement paths do what the statements say**: no `ACCOUNT LOCK` option on
+CREATE USER, DROP USER of an existing account, no UPDATE that changes the row of an account holding
+database-level privileges (and no account whose row is already duplicated). The full statement
+`∀ es op, stepI es op = stepS es op` is false: `finding_create_user_account_lock_ignored`,
+`finding_dml_update_keeps_old_row_of_scoped_account`. -/
+theorem stepI_eq_stepS_of_ok (es : List Entry) (op : AuthHist.Op) (hok : okOp es op = true) : stepI es op = stepS es op := by
+  cases op with
+  | createUser k pl au lock =>
+    have : lock = false := by simpa [okOp] using hok
+    subst this; rfl
+  | dropUser k =>
+    simp only [okOp, Bool.and_eq_true, bne_iff_ne, ne_eq] at hok
+    obtain ⟨e, he, hk⟩ := chooseEntry_of_hasKey es k hok.1.1 hok.1.2 hok.2
+    simp [stepI, stepS, he, hk]
+  | dmlUpdate k u =>
+    simp only [stepI, stepS]
+    cases hw : withKey es k with
+    | nil => rfl
+    | cons e r =>
+      cases r with
+      | nil =>
+        simp only [okOp, hw, Bool.or_eq_true, Bool.not_eq_true', beq_iff_eq] at hok
+        by_cases hu : u.apply e.a = e.a
+        · simp [hu]
+        · rcases hok with hs | hs
+          · simp [hu, hs]
+          · exact absurd hs hu
+      | cons e2 r2 => simp [okOp, hw] at hok
+  | createRole n => rfl
+  | alterUser k pl au => rfl
+  | grantGlobal k => rfl
+  | grantScoped k => rfl
+  | flush => rfl
+  | dmlDelete k => rfl
+  | dmlInsert k pl au lock => rfl
+
+theorem stateI_eq_stateS_of_ok (es : List Entry) (evs : List Ev) (hok : okHist es evs = true) :
+    stateI es evs = stateS es evs := by
+  induction evs generalizing es with
+  | nil => rfl
+  | cons e r ih =>
+    cases e with
+    | op o =>
+      simp only [okHist, Bool.and_eq_true] at hok
+      simp only [stateI, stateS]
+      rw [stepI_eq_stepS_of_ok es o hok.1]
+      exact ih _ hok.2
+    | login u h s p => exact ih es hok
+
+/-- Non-vacuity of the envelope: a history through both paths (CREATE USER, GRANT, UPDATE, ALTER USER, DELETE,
+INSERT) with logins in between. -/
+example : okHist [] [.op (.createUser ("u", "10.1.%") "mysql_native_password" [] false), .login "u" "10.1.2.3" [] [],
+    .op (.grantGlobal ("u", "10.1.%")), .op (.dmlUpdate ("u", "10.1.%") (.lock true)), .login "u" "10.1.2.3" [] [],
+    .op (.alterUser ("u", "10.1.%") "mysql_native_password" ['*']), .op (.dmlDelete ("u", "10.1.%")),
+    .op (.dmlInsert ("u", "%") "mysql_native_password" [] false), .op (.dropUser ("u", "%"))] = true := by decide
+
+/-- **On a table without a duplicated key the history login is the login decision of `authNative`, and it is
+the Spec's whenever `GetUser` picks the account the Spec picks.** -/
+theorem loginI_eq_loginS_of_same_account (H : Bytes → Bytes) (hH : ∀ x, (H x).length = 20) (es : List Entry)
+    (user host : String) (salt resp : Bytes) (a : Acct) (hd : dupKey es user host = false)
+    (hi : chooseImpl (acctsOf es) user host = some a) (hsp : chooseSpec (acctsOf es) user host = some (some a)) :
+    loginS H es user host salt resp = some (loginI H es user host salt resp) := by
+  simp only [loginS, loginI, hd, hsp, Bool.false_eq_true, if_false, handleUser, hi, Bool.not_true]
+  by_cases hp : a.plugin = defaultAuthMethod
+  · simp [hp, authNative_eq_spec_of_same_account H hH (acctsOf es) user host salt resp a hi hsp]
+  · simp [hp]
+
+/-- **Finding `create_user_account_lock_ignored`.** `CREATE USER 'u'@'%' ACCOUNT LOCK` stores an unlocked
+account: the login the statement forbids is accepted. -/
+theorem finding_create_user_account_lock_ignored :
+    let evs : List Ev := [.op (.createUser ("u", "%") "mysql_native_password" [] true), .login "u" "10.0.0.5" [] []]
+    runI toyH [] evs = [.out (.accept "u" "%")] ∧ runS toyH [] evs = [some (.out .deny)] ∧
+      taintOf (taintStep [] [] (.createUser ("u", "%") "mysql_native_password" [] true)) ("u", "%") = some regionLock := by
+  decide
+
+/-- **Finding `dml_update_keeps_old_row_of_scoped_account`.** After `GRANT … ON d.*`, `UPDATE mysql.user SET
+account_locked = 'Y'` leaves the old (unlocked) row in front of the new one: a client matched through the
+host pattern is still accepted; a client whose (user, host) is the key itself makes `Reader.GetUser` panic. -/
+theorem finding_dml_update_keeps_old_row_of_scoped_account :
+    let evs (h : String) : List Ev := [.op (.createUser ("u", h) "mysql_native_password" [] false), .op (.grantScoped ("u", h)),
+      .op (.dmlUpdate ("u", h) (.lock true)), .login "u" "localhost" [] []]
+    runI toyH [] (evs "%") = [.out (.accept "u" "%")] ∧ runS toyH [] (evs "%") = [some (.out .deny)] ∧
+    runI toyH [] (evs "localhost") = [.out .crash] ∧ runS toyH [] (evs "localhost") = [some (.out .deny)] ∧
+    (stateI [] (evs "%")).length = 2 ∧ (stateS [] (evs "%")).length = 1 := by
+  decide
+
+/-! ### a cache in front of the account lookup -/
+
+/-- Invariant of the read-through cache: an entry of the current generation holds the current answer. -/
+def CInv {σ κ ν : Type} (look : σ → κ → Option ν) (c : Cached σ κ ν) : Prop :=
+  ∀ e ∈ c.cache, e.2.2 ≤ c.gen ∧ (e.2.2 = c.gen → look c.st e.1 = some e.2.1)
+
+theorem cacheGet_some {κ ν : Type} [DecidableEq κ] (cache : List (κ × ν × Nat)) (k : κ) (gen : Nat) (v : ν)
+    (h : cacheGet cache k gen = some v) : ∃ e ∈ cache, e.1 = k ∧ e.2.1 = v ∧ e.2.2 = gen := by
+  simp only [cacheGet] at h
+  cases hf : cache.find? (fun e => decide (e.1 = k)) with
+  | none => simp [hf] at h
+  | some e =>
+    obtain ⟨k', v', g⟩ := e
+    simp only [hf] at h
+    split at h
+    · rename_i hg
+      have hk := List.find?_some hf
+      simp only [decide_eq_true_eq] at hk
+      simp only [Option.some.injEq] at h
+      exact ⟨(k', v', g), List.mem_of_find?_eq_some hf, hk, h, hg⟩
+    · simp at h
+
+/-- **A generation-keyed cache is transparent iff every state change bumps the generation.** If every
+operation of the history that does not advance the generation leaves the state unchanged, the cached answers
+are the uncached ones. (The account lookup of a login may be cached on `MySQLDb.updateCounter` only if every
+path that edits accounts advances it.) -/
+theorem cache_coherent {σ ο κ ν : Type} [DecidableEq κ] (step : σ → ο → σ) (look : σ → κ → Option ν) (bumps : ο → Bool)
+    (evs : List (CEv ο κ)) (hb : ∀ o, CEv.op o ∈ evs → bumps o = false → ∀ s, step s o = s)
+    (c : Cached σ κ ν) (hc : CInv look c) :
+    runC step look bumps c evs = runU step look c.st evs := by
+  induction evs generalizing c with
+  | nil => rfl
+  | cons e r ih =>
+    have hb' : ∀ o, CEv.op o ∈ r → bumps o = false → ∀ s, step s o = s :=
+      fun o ho => hb o (List.mem_cons_of_mem _ ho)
+    cases e with
+    | op o =>
+      simp only [runC, runU]
+      apply ih hb'
+      intro e he
+      by_cases hbo : bumps o = true
+      · simp only [hbo, if_true]
+        have := (hc e he).1
+        exact ⟨by omega, fun h => by omega⟩
+      · have hbo' : bumps o = false := by simpa using hbo
+        simp only [hbo', Bool.false_eq_true, if_false, hb o (List.mem_cons_self ..) hbo' c.st]
+        exact hc e he
+    | ask k =>
+      simp only [runC, runU]
+      cases hg : cacheGet c.cache k c.gen with
+      | some v =>
+        obtain ⟨e, he, hk, hv, hgen⟩ := cacheGet_some _ _ _ _ hg
+        have := (hc e he).2 hgen
+        rw [hk, hv] at this
+        simp only [this, ih hb' c hc]
+      | none =>
+        cases hl : look c.st k with
+        | none => simp only [ih hb' c hc]
+        | some v =>
+          simp only
+          rw [ih hb']
+          intro e he
+          rcases List.mem_cons.1 he with rfl | hm
+          · exact ⟨Nat.le_refl _, fun _ => hl⟩
+          · exact hc e hm
+
+/-- The account lookup of a login, as a function of the table. -/
+def lookAcct (es : List Entry) (k : String × String) : Option Acct := chooseImpl (acctsOf es) k.1 k.2
+
+/-- With a counter that *every* statement advances the cache is invisible … -/
+theorem cache_coherent_all_bump (evs : List (CEv AuthHist.Op (String × String))) (es : List Entry) :
+    runC stepI lookAcct (fun _ => true) { st := es, gen := 1, cache := [] } evs = runU stepI lookAcct es evs :=
+  cache_coherent stepI lookAcct (fun _ => true) evs (fun _ _ h => by simp at h) _ (by intro e he; cases he)
+
+/-- **… but `MySQLDb.updateCounter` is advanced by `Editor.Close` only**: DML on `mysql.user` changes the
+table without advancing it, and a lookup cached on that counter keeps answering with the old account — the
+login after `UPDATE mysql.user SET account_locked = 'Y'` is still checked against the unlocked row. -/
+theorem stale_cache_diverges :
+    let es : List Entry := [mkEntry ("u", "%") "mysql_native_password" [] false]
+    let evs : List (CEv AuthHist.Op (String × String)) :=
+      [.ask ("u", "10.0.0.5"), .op (.dmlUpdate ("u", "%") (.lock true)), .ask ("u", "10.0.0.5")]
+    (runC stepI lookAcct bumpsEditor { st := es, gen := 1, cache := [] } evs).map (·.map (·.locked)) = [some false, some false] ∧
+    (runU stepI lookAcct es evs).map (·.map (·.locked)) = [some false, some true] ∧
+    bumpsEditor (.dmlUpdate ("u", "%") (.lock true)) = false ∧
+    stepI es (.dmlUpdate ("u", "%") (.lock true)) ≠ es := by
+  decide
+
+end Histories
 
 end Gms.C40
